@@ -133,6 +133,12 @@ def _update_allow(allow_set, value):
     return allow_set
 
 
+def _is_str_seq(value):
+    """True for a list or tuple all of whose elements are strings."""
+    return isinstance(value, (list, tuple)) and \
+        all(isinstance(v, str) for v in value)
+
+
 def _find_search_optimizations(filters):
     """
     Searches through all the filters, and creates white/blacklists of types and
@@ -155,6 +161,16 @@ def _find_search_optimizations(filters):
     prohibited_ids = set()
 
     for filter_ in filters:
+        # Directory and file names are strings, so a shortcut can only be
+        # derived from a string ("=", "!=") or from a list/tuple of strings
+        # ("in").  Anything else (e.g. a string given to "in", which means
+        # "is a substring of") is left to the per-object filter check.
+        if filter_.op == "in":
+            if not _is_str_seq(filter_.value):
+                continue
+        elif not isinstance(filter_.value, str):
+            continue
+
         if filter_.property == "type":
             if filter_.op in ("=", "in"):
                 allowed_types = _update_allow(allowed_types, filter_.value)
